@@ -55,6 +55,14 @@ func (c *vHC) anyService(r vh.R) uint64 {
 	case 3:
 		return uint64(90000 + r.IntN(10)) // does not exist
 	case 4:
+		if r.Bool() {
+			// a 64-bit value whose low half is the id of an existing service: names no service (N_S is 32 bits wide)
+			low := uint64(c.caller)
+			if len(c.others) > 0 && r.Bool() {
+				low = uint64(c.others[r.IntN(len(c.others))])
+			}
+			return low | uint64(1+r.IntN(0xFFFFFFFE))<<32
+		}
 		return r.U64()
 	default:
 		return uint64(c.caller)
@@ -561,6 +569,33 @@ func vRunHostSequence(h *vh.H, stratum string, ci int, r vh.R, mon vMonitors) {
 			}
 			if op == CheckpointOp && kind == "ok" && vProjDiff(o.projX1, o.projY1) != "[]" {
 				viol("frame: checkpoint copy differs from the live context", vProjDiff(o.projX1, o.projY1))
+			}
+		}
+
+		// ---- C07 / C31: a register value outside N_S names no service -------------------------------------------------
+		// (2^64-1 means "the caller itself" where the call defines it so). What the specification assigns to such a call is the
+		// "no such service" answer: NONE without a memory write for the reading calls, WHO without a state change for the others.
+		if mon.frame && kind != "panic" && kind != "oog" && o.regs0[7] >= 1<<32 {
+			s7, want := o.regs0[7], uint64(0)
+			switch op {
+			case LookupOp, HistoricalLookupOp, ReadOp, InfoOp:
+				if s7 != ^uint64(0) {
+					want = NONE
+				}
+			case ProvideOp:
+				if s7 != ^uint64(0) {
+					want = WHO
+				}
+			case EjectOp, TransferOp:
+				want = WHO
+			}
+			if want != 0 {
+				h.Inc("calls_naming_a_service_outside_the_32_bit_range")
+				if o.regs1[7] != want {
+					viol("service naming: a register value >= 2^32 was taken for a service (the call must answer "+vErrCodes[want]+")", fmt.Sprintf("ω7 = %#x", s7))
+				} else if len(o.memChanged) > 0 || !xSame {
+					viol("service naming: the call answered "+vErrCodes[want]+" but wrote memory or changed the context", fmt.Sprintf("ω7 = %#x", s7))
+				}
 			}
 		}
 
